@@ -1,27 +1,12 @@
 INIT Init
 NEXT Next
 CONSTANTS
-  Keys <- K2b
-  AllowedKeys <- None
-  AllowedModes <- No
-  Forms = {"bare", "n"}
-  IntCoefs <- I_2
-  DecCoefs <- None
-  InactCoefs <- None
-  MaxReac = 1
-  MaxProd = 1
-  MaxInact = 0
-  Arrows = {"->"}
-  Params <- P_one
-  Kws <- W_name
-  MaxLines = 2
-  Comments <- C_q
-  MaxComments = 1
-  PrintOpts <- O_all
-  FaultKinds <- None
+  SliceTable <- AllSlices
+  SliceNames = {"system_q"}
 INVARIANT TypeOK
 INVARIANT RepeatedSpeciesSummed
 INVARIANT InactiveNeverActive
 INVARIANT ParsePrintIdentity
+INVARIANT TextWins
 INVARIANT Emit
 CHECK_DEADLOCK FALSE
